@@ -89,7 +89,7 @@ CHECKS = {
             "DESIGN.md §3 C19"),
     "C20": ("exploration",
             "runtime monitoring: close/reopen differential - every version reloaded by a fresh tree and compared with the recorded hash and the model; continuation compared with the reference; prune + reopen; snapshot round trips (SaveSnapshot/LoadSnapshot, Export -> WriteSnapshot -> LoadSnapshot in both orders); commits under a foreign SQLite write lock (acknowledged commits must reload)",
-            "For every version t of a generated history LoadVersion(t) on a fresh tree must reproduce hash, size, reads and iteration (targets on / just after / far after a checkpoint); continuing from the reloaded latest must reproduce the reference's hashes; after DeleteVersionsTo(n) has drained (bounded polling of the SQLite files) the latest version and all versions from the last checkpoint not after n must load; snapshots import to the source version's hash and contents.",
+            "For every version t of a generated history LoadVersion(t) on a fresh tree must reproduce hash, size, reads and iteration (targets on / just after / far after a checkpoint); continuing from the reloaded latest must reproduce the reference's hashes; after DeleteVersionsTo(n) has drained (bounded polling of the SQLite files) the latest version and all versions from the last checkpoint not after n must load; snapshots import to the source version's hash and contents. Every 32nd case is a prune with a large backlog (3000 keys) that is still running when the history goes on and the next checkpoint is saved (overlap observed and counted): the process must survive and versions from the prune point on must reload exactly.",
             "Trusted: M, R. Background pruning has no completion signal: not draining within the bound is INCONCLUSIVE. A store written by WriteSnapshot is read back with LoadSnapshot (as the property states), not with LoadVersion.",
             "DESIGN.md §3 C20"),
     "C04": ("exploration",
@@ -104,8 +104,8 @@ CHECKS = {
             "DESIGN.md §3 C12"),
     "C14": ("exploration",
             "runtime monitoring: version-range model compared with every bookkeeping API after every step, on the live handle and on a fresh handle; raw-store comparison for rejected requests; full read battery of the working state after every rejected request",
-            "After every step: commit numbering, VersionExists / AvailableVersions / GetImmutable / GetLatestVersion / GetVersioned / LoadVersion for every version number in {0,1,first-2..latest+1} on the live handle and after a reopen; re-commit of an existing version number accepted iff the reference tree says the hash is identical; rejected requests leave the raw store byte-identical and the tree usable.",
-            "Trusted: model M (range), reference tree R (hash equality of re-commits).",
+            "After every step: commit numbering, VersionExists / AvailableVersions / GetImmutable / GetLatestVersion / GetVersioned / LoadVersion for every version number in {0,1,first-2..latest+1} on the live handle and after a reopen; re-commit of an existing version number accepted iff the reference tree says the hash is identical; rejected requests leave the raw store byte-identical and the tree usable. Every 6th history runs with background pruning: once the pruning goroutine has taken versions out of the range (deletions still pending in the batch) every range API of that handle must agree with the model and LoadVersion of a removed version must fail and leave the handle where it was.",
+            "Trusted: model M (range), reference tree R (hash equality of re-commits). With background pruning the executor waits (bounded) for the request to be processed; fresh-handle comparisons wait for the next commit.",
             "DESIGN.md §3 C14"),
 }
 
